@@ -291,6 +291,10 @@ fn special_strings(f: &mut dyn FnMut(G)) {
             f(call(E::Seq(vec![E::r(&format!("N{s}")), E::lit("t")])));
         }
     }
+    // command names that are not plain identifiers (complgen accepts anything without `/`)
+    for name in ["git-lfs", "7z", "g++", "a.out", "x_y", "apt-get"] {
+        f(G { stmts: vec![crate::ast::Stmt::Call { name: name.into(), expr: E::Seq(vec![E::Word(vec![E::lit("--k="), E::Alt(vec![E::lit("a"), E::lit("b")])]), E::lit("t")]) }] });
+    }
     // the same within-word expression referenced from two positions; several automata whose
     // first use differs from grammar order
     use crate::ast::Stmt;
@@ -394,7 +398,7 @@ pub fn run(tier: Tier) -> Report {
     rep.cov(
         "rule",
         J::s(format!(
-            "exhaustive: all trees <= {k} nodes over V0, the definition / order-sensitive / sharing-biased families, the corpus, and a menu of 19 hot strings (quotes, backslashes, braces, angle brackets, DOT operators, non-ASCII) each as literal, literal inside a word, description, command text and nonterminal name; x 4 shells for --dfa (numbering base differs), bash+zsh for --regex. The dump must parse with the harness's strict DOT parser (graphviz lexer rules); --dfa: exactly one node per state of the compiled automaton named and labelled with the shell's numbering, start/accepting shapes, one labelled edge per transition whose decoded label holds the item's text, description and level, one cluster per within-word automaton numbered as the scripts number them (first use in transition order) with dashed entry/exit edges, no edge that is no transition; --regex: every expected item (position) of the main and of every within-word expression has a labelled node, every edge joins declared nodes. Level B: the files the real binary writes equal the library's bytes, whether the destination is new, holds the previous dump or holds a long unrelated file. distinct = distinct (grammar, shell)."
+            "exhaustive: all trees <= {k} nodes over V0, the definition / order-sensitive / sharing-biased families, the corpus, and a menu of 19 hot strings (quotes, backslashes, braces, angle brackets, DOT operators, non-ASCII) each as literal, literal inside a word, description, command text and nonterminal name; six command names that are not plain identifiers; x 4 shells for --dfa (numbering base differs), bash+zsh for --regex. The dump must parse with the harness's strict DOT parser (graphviz lexer rules); --dfa: exactly one node per state of the compiled automaton named and labelled with the shell's numbering, start/accepting shapes, one labelled edge per transition whose decoded label holds the item's text, description and level, one cluster per within-word automaton numbered as the scripts number them (first use in transition order) with dashed entry/exit edges, no edge that is no transition; --regex: every expected item (position) of the main and of every within-word expression has a labelled node, every edge joins declared nodes. Level B: the files the real binary writes equal the library's bytes, whether the destination is new, holds the previous dump or holds a long unrelated file. distinct = distinct (grammar, shell)."
         )),
     );
     rep.cov("exhaustive", J::Bool(true));
